@@ -175,6 +175,9 @@ fn handle<BIn>(req: &mut Request<BIn>) -> Option<ValidateSNIError> {
     None
 }
 
+#[cfg(all(test, feature = "verif-hooks"))]
+mod verif_replays;
+
 #[cfg(test)]
 mod tests {
     use super::*;
